@@ -217,11 +217,12 @@ Theorem all_sort_sites_known : forallb sort_site_known sort_sites = true.
 Proof. vm_compute. reflexivity. Qed.
 Print Assumptions all_sort_sites_known.
 
-(* the only order-sensitive site is the float accumulation of edgeEntropyScore (finding F25) *)
+(* no map range on an output path is order-sensitive: the float accumulation of edgeEntropyScore (F28)
+   now ranges over the sorted edge list, so no site carries the class MRFloat any more *)
 Theorem only_entropy_score_is_order_sensitive :
   forallb (fun g => let '(f, fn, e, n, k) := g in
              match class_of (f, fn, e, n) with
-             | Some MRFloat => String.eqb fn "edgeEntropyScore"
+             | Some MRFloat => false
              | _ => true end) map_range_sites = true.
 Proof. vm_compute. reflexivity. Qed.
 Print Assumptions only_entropy_score_is_order_sensitive.
